@@ -1,7 +1,7 @@
 # Value-type grids for C09 (h_cmp.c) and C10 (h_hash.c).  Aggregated by checks/C09.py / checks/C10.py.
 
 def H(harness, name, variant, *args, **kw):
-    d = dict(name=name, harness=harness, variant=variant, args=list(args))
+    d = dict(name=name, harness=harness, variant=variant, args=list(args) + ['oddtree=1'])   # Tree keys of odd sizes: enabled since the alignment repair f8ba4d6
     d.update(kw)
     return d
 
